@@ -25,9 +25,11 @@ LANG_KEYS = ["gl", "hl"]
 
 IRRELEVANT_LABELS = ["www", "www2", "www3", "www9", "m", "mobile"]
 AMP_LABELS = ["amp"]
-LOOKALIKE_LABELS = ["wwww", "www10", "ww", "mm", "mobiles", "forum-m", "m-site", "ampere", "amp2", "my-www", "wwwx", "xm"]
+LOOKALIKE_LABELS = ["wwww", "www10", "ww", "mm", "mobiles", "forum-m", "m-site", "ampere", "amp2", "my-www", "wwwx", "xm",
+                    # not ASCII: a non-ASCII digit after 'www' (raw and as A-label), letters that only case-fold to ASCII ones
+                    "www\u0663", "xn--www-l6e", "\u017f", "www\u0967"]
 
-INDEX_PAGES = ["index.html", "index.php", "index", "default.asp", "default.aspx", "index.htm", "Default.html".lower()]
+INDEX_PAGES = ["index.html", "index.php", "index", "default.asp", "default.aspx", "index.htm", "Default.html".lower(), "index.HTML", "default.ASPX", "index."]
 INDEX_LOOKALIKES = ["indexes.html", "myindex.html", "index.html.bak", "Index.html", "defaults.php", "index-2.html"]
 AMP_PATH_MARKERS = ["amp", "amp/"]          # as last segment
 AMP_PATH_LOOKALIKES = ["amps", "amp-x", "xamp", "x.amplify", "x.amp.htm"]
